@@ -309,6 +309,40 @@ impl<T> DataReaderEntity<T> {
         reception_timestamp: Time,
     ) -> DdsResult<AddChangeResult> {
         let instance_handle = InstanceHandle::new(change_instance_handle);
+        // data_reader exclusive access: if the writer is not allowed to modify the instance do an early return
+        // before the change has any effect on the instance state
+        if self.qos.ownership.kind == OwnershipQosPolicyKind::Exclusive {
+            let writer_handle: [u8; 16] = writer_guid.into();
+            // Get the InstanceHandle of the data writer owning this instance
+            if let Some(instance_owner) = self
+                .instance_ownership
+                .iter()
+                .find(|x| x.instance_handle == instance_handle)
+            {
+                let instance_writer = InstanceHandle::new(writer_handle);
+                let Some(sample_owner) = self
+                    .matched_publication_list
+                    .iter()
+                    .find(|x| x.key().value == instance_owner.owner_handle.as_ref())
+                else {
+                    return Ok(AddChangeResult::NotAdded);
+                };
+                let Some(sample_writer) = self
+                    .matched_publication_list
+                    .iter()
+                    .find(|x| &x.key().value == instance_writer.as_ref())
+                else {
+                    return Ok(AddChangeResult::NotAdded);
+                };
+                if instance_owner.owner_handle != writer_handle
+                    && sample_writer.ownership_strength().value
+                        <= sample_owner.ownership_strength().value
+                {
+                    return Ok(AddChangeResult::NotAdded);
+                }
+            }
+        }
+
         // Update the state of the instance before creating since this has direct impact on
         // the information that is stored on the sample
         match change_kind {
@@ -362,37 +396,8 @@ impl<T> DataReaderEntity<T> {
         };
 
         let change_instance_handle = sample.instance_handle;
-        // data_reader exclusive access if the writer is not the allowed to write the sample do an early return
+        // The writer of an accepted change becomes (or stays) the owner of an exclusively owned instance
         if self.qos.ownership.kind == OwnershipQosPolicyKind::Exclusive {
-            // Get the InstanceHandle of the data writer owning this instance
-            if let Some(instance_owner) = self
-                .instance_ownership
-                .iter()
-                .find(|x| x.instance_handle == sample.instance_handle)
-            {
-                let instance_writer = InstanceHandle::new(sample.writer_guid);
-                let Some(sample_owner) = self
-                    .matched_publication_list
-                    .iter()
-                    .find(|x| x.key().value == instance_owner.owner_handle.as_ref())
-                else {
-                    return Ok(AddChangeResult::NotAdded);
-                };
-                let Some(sample_writer) = self
-                    .matched_publication_list
-                    .iter()
-                    .find(|x| &x.key().value == instance_writer.as_ref())
-                else {
-                    return Ok(AddChangeResult::NotAdded);
-                };
-                if instance_owner.owner_handle != sample.writer_guid
-                    && sample_writer.ownership_strength().value
-                        <= sample_owner.ownership_strength().value
-                {
-                    return Ok(AddChangeResult::NotAdded);
-                }
-            }
-
             match self
                 .instance_ownership
                 .iter_mut()
